@@ -8,9 +8,18 @@ Driver for C20 (migrations). One output line per input line.
   all from `Generated/Constants.lean`) and sets the abstract storage from the witness fields. Answer: `case`.
 * `mig t=<ns> name=<str|*|-> ver=<str|~> msg=<0|1> [update fields]` — optionally rewrite the cw2 record
   (`*` keep, `-` delete; version `~` = empty string), then run `LP.Mig.migrate`.
-  Answer: `err` or `ok <state fields> ch=<changed storage keys>`.
-* any other line (`act …`, `put …`) — an environment step performed on the real contract; the line carries the
-  resulting state fields, the model adopts them. Answer: `ok`.
+  Answer: `err` or `ok <state fields> ch=<changed storage keys> ## params=<all 13 parameters>`.
+  PROJECTION: in the primary part the parameters *supplied* by the line's update message are masked (`*`): C20 only
+  constrains the parameters that were NOT supplied (they must keep their value); what a supplied parameter becomes is
+  governance-update semantics (C18) and is compared behind ` ## ` only (DRIFT, never a failure).
+* any other line (`act …`, `put …`, `sync`) — an environment step performed on the real contract; the line carries the
+  resulting state fields, the model adopts them. Answer: `ok`. (`sync` follows every accepted message-carrying factory
+  migration, so that a drift in a supplied parameter does not leak into later primary comparisons.)
+
+Case header witnesses for sg721-updatable (read by the harness from the contract's source, where the constants are
+private): `acc=<names>` = `COMPATIBLE_CONTRACT_NAMES_FOR_MIGRATION`, `bn=<names>` = the inline sg721-base names whose
+records get the flags initialised. `Spec.accepted` / `Spec.baseNames` are parameters of every theorem, so any value is
+covered by the proofs. Absent ⇒ the four / two names of the snapshot.
 
 State fields: `cw2n=<name|-> cw2v=<ver|~> ld=<n|-> fz=<0|1|-> eu=<0|1|-> ru=<n|-> lm=<id|-> own=<-|id:p|-:p> params=<-|…>`.
 -/
@@ -66,7 +75,13 @@ def specTable : List (String × Kind × String × (Nat × Nat × Nat)) :=
     ("sg721-nt", .nt, Gen.sg721_nt_CONTRACT_NAME, Gen.sg721_nt_CRATE_VERSION_TRIPLE),
     ("sg721-base", .base721, Gen.sg721_base_CONTRACT_NAME, Gen.sg721_base_CRATE_VERSION_TRIPLE) ]
 
-def mkSpec (names : List String) (key : String) : Option (List String × Spec) :=
+def internAll (tbl : List String) (xs : List String) : List String × List Nat :=
+  xs.foldl (fun (acc : List String × List Nat) x => let (t, i) := internIn acc.1 x; (t, acc.2 ++ [i])) (tbl, [])
+
+def nameList? (s : Option String) : Option (List String) :=
+  s.map fun v => if v == "-" then [] else v.splitOn ","
+
+def mkSpec (names : List String) (key : String) (acc bn : Option (List String)) : Option (List String × Spec) :=
   match specTable.find? (·.1 == key) with
   | none => none
   | some (_, kind, cname, triple) =>
@@ -74,8 +89,11 @@ def mkSpec (names : List String) (key : String) : Option (List String × Spec) :
     let code := ofTriple triple
     match kind with
     | .updatable =>
-      -- COMPATIBLE_CONTRACT_NAMES_FOR_MIGRATION (an array; not extracted): the short and the crates.io names
-      some (names, { kind, own, code, accepted := [0, 1, 2, 3], baseNames := [0, 1],
+      -- COMPATIBLE_CONTRACT_NAMES_FOR_MIGRATION and the inline base-name array are private / not extracted: the
+      -- harness reads them from the source and passes them in the header (default: the snapshot's values)
+      let (names, accepted) := match acc with | some l => internAll names l | none => (names, [0, 1, 2, 3])
+      let (names, baseNs) := match bn with | some l => internAll names l | none => (names, [0, 1])
+      some (names, { kind, own, code, accepted := accepted, baseNames := baseNs,
                      earliest := parseOr0 Gen.sg721_updatable_EARLIEST_COMPATIBLE_VERSION })
     | .metaOnchain =>
       some (names, { kind, own, code, earliest := parseOr0 Gen.sg721_metadata_onchain_EARLIEST_VERSION,
@@ -106,13 +124,30 @@ def params? (s : String) : Option (Option FParams) :=
     pure (some p)
   | _ => none
 
-def renderParams (p : Option FParams) : String :=
+def paramFields (p : FParams) : List String :=
+  [toString p.codeId, renderNats p.ids, (if p.frozen then "1" else "0"), renderCoin p.creationFee,
+   renderCoin p.minMintPrice, toString p.mintFeeBps, toString p.offset, toString p.maxTokenLimit, toString p.maxPerAddr,
+   renderCoin p.airdropPrice, toString p.airdropBps, renderCoin p.shuffleFee, toString p.devFeeAddr]
+
+/-- the 13 parameters; those whose index is in `mask` (supplied by the update message) are printed as `*` -/
+def renderParamsMasked (p : Option FParams) (mask : List Nat) : String :=
   match p with
   | none => "-"
   | some p =>
-    String.intercalate ";" [toString p.codeId, renderNats p.ids, (if p.frozen then "1" else "0"), renderCoin p.creationFee,
-      renderCoin p.minMintPrice, toString p.mintFeeBps, toString p.offset, toString p.maxTokenLimit, toString p.maxPerAddr,
-      renderCoin p.airdropPrice, toString p.airdropBps, renderCoin p.shuffleFee, toString p.devFeeAddr]
+    let fs := paramFields p
+    String.intercalate ";" ((List.range fs.length).map fun i => if mask.contains i then "*" else fs.getD i "?")
+
+def renderParams (p : Option FParams) : String := renderParamsMasked p []
+
+/-- which of the 13 parameters the update message of a `mig` line supplies (same table as `supplied_idx` in c20.rs) -/
+def suppliedIdx (ws : List String) : List Nat :=
+  let has (k : String) : Bool := match kv ws k with | some "x" => false | some _ => true | none => false
+  if kv ws "msg" != some "1" then [] else
+  (if has "code_id" then [0] else []) ++ (if has "add" || has "rm" then [1] else []) ++ (if has "frozen" then [2] else []) ++
+  (if has "cf" then [3] else []) ++ (if has "mmp" then [4] else []) ++ (if has "bps" then [5] else []) ++
+  (if has "off" then [6] else []) ++ (if has "mtl" then [7] else []) ++ (if has "mpa" then [8] else []) ++
+  (if has "ap" then [9] else []) ++ (if has "abps" then [10] else []) ++ (if has "sf" then [11] else []) ++
+  (if has "dev" then [12] else [])
 
 def optBool? (s : String) : Option (Option Bool) :=
   if s == "-" then some none else if s == "1" then some (some true) else if s == "0" then some (some false) else none
@@ -154,13 +189,15 @@ def readState (d : DSt) (ws : List String) : DSt :=
     params := ((kv ws "params").bind params?).getD s.params }
   { d with names := names, st := s }
 
-def renderState (names : List String) (s : St) : String :=
+def renderStateMasked (names : List String) (s : St) (mask : List Nat) : String :=
   let cw2 := match s.cw2 with
     | none => "cw2n=- cw2v=~"
     | some c =>
       let n := names.getD c.name "?"
       s!"cw2n={if n.isEmpty then "~" else n} cw2v={tokOfVer c.ver}"
-  s!"{cw2} ld={renderOpt s.lastDiscount} fz={renderOptBool s.frozenMeta} eu={renderOptBool s.enableUpd} ru={renderOpt s.royaltyAt} lm={renderOpt s.legacyMinter} own={renderOwn s.ownership} params={renderParams s.params}"
+  s!"{cw2} ld={renderOpt s.lastDiscount} fz={renderOptBool s.frozenMeta} eu={renderOptBool s.enableUpd} ru={renderOpt s.royaltyAt} lm={renderOpt s.legacyMinter} own={renderOwn s.ownership} params={renderParamsMasked s.params mask}"
+
+def renderState (names : List String) (s : St) : String := renderStateMasked names s []
 
 def keyName (k : Nat) : String :=
   if k == K_CW2 then "contract_info"
@@ -207,7 +244,7 @@ def stepLine (d : DSt) (line : String) : DSt × String :=
   match ws.head? with
   | some "case" =>
     let names := baseNames
-    match (kv ws "c").bind (mkSpec names) with
+    match (kv ws "c").bind (fun c => mkSpec names c (nameList? (kv ws "acc")) (nameList? (kv ws "bn"))) with
     | none => (d, "bad-case")
     | some (names, sp) =>
       (readState { names, spec := sp, st := emptySt } ws, "case")
@@ -227,7 +264,8 @@ def stepLine (d : DSt) (line : String) : DSt × String :=
       match migrate d1.spec t msg d1.st with
       | .error _ => pure (d1, "err")
       | .ok s' =>
-        pure ({ d1 with st := s' }, s!"ok {renderState d1.names s'} ch={renderChanged d1.st s'}")
+        pure ({ d1 with st := s' },
+          s!"ok {renderStateMasked d1.names s' (suppliedIdx ws)} ch={renderChanged d1.st s'} ## params={renderParams s'.params}")
     r.getD (d, "bad-op")
   | some _ => (readState d ws, "ok")
   | none => (d, "bad-op")
